@@ -122,7 +122,7 @@ def run(tier, seed, deep, hints):
     for key in keys:
         if core.search_expired():
             break
-        depth = rng.choice([1, 2, 3, 5, 8])
+        depth = rng.choice([1, 2, 3, 5, 8]) if rng.random() < 0.9 else rng.choice([63, 64, 65, 100, 257])
         evals += 1
         try:
             probs = _check_key(key, depth, rng)
